@@ -317,7 +317,16 @@ def c29(tier, seed):
         dur = rng.choice(["VOLATILE", "TRANSIENT_LOCAL"])
         wq = q(dur=dur, hist=0, lifespan_ms=life)
         late = dur == "TRANSIENT_LOCAL" and rng.random() < 0.5
-        steps = [{"do": "participant"}, {"do": "participant"}, {"do": "create_writer", "part": 0, "qos": wq}]
+        steps = [{"do": "participant"}, {"do": "participant"}]
+        decoy = rng.random() < 0.5
+        if decoy:
+            # another writer of the same participant (default, infinite lifespan) created before or after
+            before = rng.random() < 0.6
+            if before:
+                steps.append({"do": "create_decoy_writer", "part": 0, "qos": q(), "write": rng.random() < 0.5})
+        steps.append({"do": "create_writer", "part": 0, "qos": wq})
+        if decoy and not before:
+            steps.append({"do": "create_decoy_writer", "part": 0, "qos": q(), "write": True})
         if not late:
             steps += [{"do": "create_reader", "part": 1, "qos": q(dur=dur)}, {"do": "wait_match", "w": 0, "n": 1}]
         mode = rng.choice(["partition", "delay", "loss", "none"])
